@@ -3,7 +3,12 @@
 set -e
 cd "$(dirname "$0")"
 mkdir -p evidence replays corpus
-( cd lean && lake build 2>&1 | grep -v '^trace' | tail -5 )
+# the lock-discipline skeleton is a translation of /repo's current request handlers (C10)
+python3 harness/skeleton.py >/dev/null
+# models, lemmas, generated skeleton, driver; the property theorems are (re)built by each check for its own
+# property, so a proof that no longer checks for one property does not stop the others
+( cd lean && lake build RadicaleModel RadicaleProofs Generated Driver driver 2>&1 | grep -v '^trace' | tail -5 )
+( cd lean && lake build Props 2>&1 | grep -v '^trace' | tail -3 ) || echo "warning: some property theorems do not check on this tree (the checks will report them)"
 if [ -f interpose/interpose.c ]; then
   gcc -O2 -shared -fPIC -o interpose/interpose.so interpose/interpose.c -ldl -lpthread
 fi
